@@ -106,12 +106,13 @@ class Renderer:
     """Canonical layout: one statement per line; every node gets
     ln = [line of first token, line of last token]."""
 
-    def __init__(self, prog, rng=None, extra_parens=0.0, layout="canon"):
+    def __init__(self, prog, rng=None, extra_parens=0.0, layout="canon", semicolons=0.0):
         self.p = prog
         self.n = prog.nodes
         self.lines = [""]
         self.rng = rng
         self.extra_parens = extra_parens
+        self.semicolons = semicolons
         self.layout = layout          # canon | shift (blank/comment lines between lines) | spread (line breaks inside statements)
         self.cur_indent = 0
 
@@ -384,6 +385,8 @@ class Renderer:
         else:
             raise ValueError("stmt kind " + k)
         nd["ln"] = [start, hdr_end or self.line]
+        if self.semicolons and self.rng and self.rng.random() < self.semicolons:
+            self.w(";")            # optional statement terminator
 
     def render(self, root):
         nd = self.n[root]
@@ -399,13 +402,85 @@ class Renderer:
         return "\n".join(self.lines) + "\n"
 
 
-def render(prog, root, rng=None, extra_parens=0.0, layout="canon", eol="\n"):
-    r = Renderer(prog, rng, extra_parens, layout)
+def lua_tokens(line):
+    """tokens of one line of renderer output (no comments, no long strings)"""
+    out, i, n = [], 0, len(line)
+    while i < n:
+        c = line[i]
+        if c in " \t":
+            i += 1
+        elif c == '"':
+            j = i + 1
+            while line[j] != '"':
+                j += 2 if line[j] == "\\" else 1
+            out.append(line[i:j + 1])
+            i = j + 1
+        elif c.isalpha() or c == "_":
+            j = i
+            while j < n and (line[j].isalnum() or line[j] == "_"):
+                j += 1
+            out.append(line[i:j])
+            i = j
+        elif c.isdigit():
+            j = i
+            while j < n and (line[j].isalnum() or line[j] == "."):
+                j += 1
+            out.append(line[i:j])
+            i = j
+        else:
+            for sym in ("...", "..", "==", "~=", "<=", ">=", "::"):
+                if line.startswith(sym, i):
+                    out.append(sym)
+                    i += len(sym)
+                    break
+            else:
+                out.append(c)
+                i += 1
+    return out
+
+
+def relayout(prog, root, src, layout):
+    """oneline: the whole program on line 1; tokline: one token per line (a '(' stays on
+    the line of the token before it: a line break there is ambiguous in Lua 5.1)"""
+    lines = src.split("\n")
+    if lines and lines[-1] == "":
+        lines.pop()
+    newlines, first, last = [], {}, {}
+    if layout == "oneline":
+        for i in range(1, len(lines) + 1):
+            first[i] = last[i] = 1
+        newsrc = " ".join(l.strip() for l in lines) + "\n"
+    else:
+        for i, l in enumerate(lines, 1):
+            toks = lua_tokens(l)
+            first[i] = len(newlines) + 1
+            for t in toks:
+                if t in ("(", "[", "{", ".", ":") and newlines and len(newlines) >= first[i]:
+                    newlines[-1] += " " + t if t in ("(", "{") else t
+                    if t in (".", ":"):
+                        newlines[-1] += ""      # name follows on the next line (allowed)
+                else:
+                    newlines.append(t)
+            if not toks:
+                newlines.append("")
+            last[i] = len(newlines)
+        newsrc = "\n".join(newlines) + "\n"
+    for nd in prog.nodes[1:]:
+        lo, hi = nd.get("ln", [0, 0])
+        if lo:
+            nd["ln"] = [first[lo], last[hi]]
+    return newsrc
+
+
+def render(prog, root, rng=None, extra_parens=0.0, layout="canon", eol="\n", semicolons=0.0):
+    r = Renderer(prog, rng, extra_parens, "canon" if layout in ("oneline", "tokline") else layout, semicolons)
     src = r.render(root)
     for nd in prog.nodes[1:]:
         if "ln" not in nd:
             nd["ln"] = [0, 0]
-    if layout == "spread":
+    if layout in ("oneline", "tokline"):
+        src = relayout(prog, root, src, layout)
+    if layout in ("spread", "tokline"):
         widen_to_statement(prog, root)
     if eol != "\n":
         src = src.replace("\n", eol)
